@@ -2,6 +2,7 @@
 package c16
 
 import (
+	"encoding/json"
 	"fmt"
 	"reflect"
 	"regexp"
@@ -17,33 +18,80 @@ import (
 
 // Result of one compilation: parser + BuildAppDefs + builder.Build, each stage observed
 type Result struct {
-	Stage string    `json:"stage"` // ok | parse | package | analyse | build | validate | panic | hang
+	Stage string    `json:"stage"` // ok | parse | package | analyse | build | validate | panic | died | hang
 	Err   string    `json:"err,omitempty"`
 	Dump  *c17.Dump `json:"-"`
 }
 
 const deadline = 20 * time.Second
 
-// compileOnce runs the whole pipeline on fresh parser/builder state in its own goroutine, with a
-// deadline and recover(). "validate" = the parser returned no error but builder.Build() failed.
+// Result of one compilation as it crosses the process boundary
+type wireResult struct {
+	Stage string    `json:"stage"`
+	Err   string    `json:"err"`
+	Dump  *c17.Dump `json:"dump,omitempty"`
+}
+type buildArg struct {
+	Items []c17.DItem `json:"items"`
+}
+type buildRes struct {
+	OK  bool   `json:"ok"`
+	Why string `json:"why"`
+}
+
+func init() {
+	c17.RegisterWorkerOp("c16.compile", func(raw json.RawMessage) any {
+		var pkgs []c17.PkgText
+		if err := json.Unmarshal(raw, &pkgs); err != nil {
+			return wireResult{Stage: "harness", Err: err.Error()}
+		}
+		r := compileInProcess(pkgs)
+		return wireResult{Stage: r.Stage, Err: r.Err, Dump: r.Dump}
+	})
+	c17.RegisterWorkerOp("c16.build", func(raw json.RawMessage) any {
+		var a buildArg
+		if err := json.Unmarshal(raw, &a); err != nil {
+			return buildRes{Why: "harness: " + err.Error()}
+		}
+		ok, why := BuildFromItems(a.Items)
+		return buildRes{ok, why}
+	})
+	c17.RunWorkerIfRequested("c16")
+}
+
+var worker = c17.NewIsolated("c16")
+
+// compileOnce runs the whole pipeline on fresh parser/builder state in the worker process (recover()
+// there turns a panic into stage "panic"). A fatal runtime error or a hang kills the worker: stage
+// "died" / "hang", with the reason the runtime printed; the worker is replaced.
+// "validate" = the parser returned no error but builder.Build() failed.
 func compileOnce(pkgs []c17.PkgText) Result {
-	ch := make(chan Result, 1)
-	go func() {
-		var r Result
-		defer func() {
-			if p := recover(); p != nil {
-				r = Result{Stage: "panic", Err: fmt.Sprint(p)}
-			}
-			ch <- r
-		}()
-		r = pipeline(pkgs)
-	}()
-	select {
-	case r := <-ch:
-		return r
-	case <-time.After(deadline):
-		return Result{Stage: "hang", Err: "no result within " + deadline.String()}
+	var r wireResult
+	if died := worker.Call("c16.compile", pkgs, &r, deadline); died != "" {
+		if strings.HasPrefix(died, "hang") {
+			return Result{Stage: "hang", Err: died}
+		}
+		return Result{Stage: "died", Err: died}
 	}
+	return Result{Stage: r.Stage, Err: r.Err, Dump: r.Dump}
+}
+
+// BuildIsolated = BuildFromItems in the worker process
+func BuildIsolated(items []c17.DItem) (bool, string) {
+	var r buildRes
+	if died := worker.Call("c16.build", buildArg{items}, &r, deadline); died != "" {
+		return false, died
+	}
+	return r.OK, r.Why
+}
+
+func compileInProcess(pkgs []c17.PkgText) (r Result) {
+	defer func() {
+		if p := recover(); p != nil {
+			r = Result{Stage: "panic", Err: fmt.Sprint(p)}
+		}
+	}()
+	return pipeline(pkgs)
 }
 
 func pipeline(pkgs []c17.PkgText) Result {
@@ -112,7 +160,7 @@ var appLevel = []string{"application not defined", "application redefined", "doe
 
 func unpositioned(r Result) []string {
 	var res []string
-	if r.Stage == "ok" || r.Stage == "panic" || r.Stage == "hang" {
+	if r.Stage == "ok" || r.Stage == "panic" || r.Stage == "hang" || r.Stage == "died" {
 		return nil
 	}
 	for _, line := range strings.Split(r.Err, "\n") {
@@ -149,7 +197,7 @@ func accepted(r Result) bool { return r.Stage == "ok" || r.Stage == "validate" }
 // files of every package in reverse order
 func Observe(pkgs []c17.PkgText) (TextObs, Result) {
 	r1 := compileOnce(pkgs)
-	o := TextObs{Stage: r1.Stage, Err: r1.Err, Panicked: r1.Stage == "panic", Hung: r1.Stage == "hang",
+	o := TextObs{Stage: r1.Stage, Err: r1.Err, Panicked: r1.Stage == "panic" || r1.Stage == "died", Hung: r1.Stage == "hang",
 		Accepted: accepted(r1), Built: r1.Stage == "ok"}
 	if len(o.Err) > 800 {
 		o.Err = o.Err[:800]
@@ -157,12 +205,12 @@ func Observe(pkgs []c17.PkgText) (TextObs, Result) {
 	o.Unpositioned = unpositioned(r1)
 	o.Positioned = len(o.Unpositioned) == 0
 	o.Deterministic = true
-	if o.Hung {
+	if o.Hung || r1.Stage == "died" {
 		return o, r1
 	}
 	same := func(what string, r Result, raw bool) {
 		switch {
-		case accepted(r) != accepted(r1) || (r.Stage == "panic") != (r1.Stage == "panic"):
+		case accepted(r) != accepted(r1) || (r.Stage == "panic") != (r1.Stage == "panic") || r.Stage == "died" || r.Stage == "hang":
 			o.Deterministic, o.NonDet = false, what+": "+r1.Stage+" vs "+r.Stage
 		case r1.Stage == "ok" && r.Stage == "ok" && !reflect.DeepEqual(c17.Canon(*r1.Dump), c17.Canon(*r.Dump)):
 			o.Deterministic, o.NonDet = false, what+": definitions differ"
